@@ -15,6 +15,7 @@ func (w *procWaitGroup) Add(delta int) {
 	w.mtx.Lock()
 	defer w.mtx.Unlock()
 	w.n += delta
+	verifWg(delta, w.n)
 	if w.n <= 0 && w.cond != nil {
 		w.cond.Broadcast()
 	}
@@ -33,4 +34,5 @@ func (w *procWaitGroup) Wait() {
 	for w.n > 0 {
 		w.cond.Wait()
 	}
+	verifWg(0, w.n)
 }
